@@ -53,7 +53,7 @@ def _sync_src(dst, repo=REPO):
                            repo + '/', dst + '/'])
 
 
-def _expire(d, match, max_age_s=4 * 3600, keep=6):
+def _expire(d, match, max_age_s=4 * 3600, keep=40):
     """Removes cached artefacts of other source trees: only entries not used for max_age_s (a concurrent check of
     another tree may still be reading a younger one), and at most `keep` entries are left."""
     now = time.time()
